@@ -159,7 +159,7 @@ def rand_order(rng, i, ts, zero_ok=True):
     return order(i, kind, vis, ts=ts, side=side, par=tif)
 
 
-def seq_history(rng, nops, nids=6, monotone_ts=True, zero_ok=True, reads=True):
+def seq_history(rng, nops, nids=6, monotone_ts=True, zero_ok=True, reads=True, vary_px=False):
     calls = []
     ts = 0
     for _ in range(nops):
@@ -167,7 +167,11 @@ def seq_history(rng, nops, nids=6, monotone_ts=True, zero_ok=True, reads=True):
         i = rng.range(1, nids)
         if x < 30:
             ts = ts + 1 if monotone_ts else rng.range(1, 4)
-            calls.append(Add(rand_order(rng, i, ts, zero_ok)))
+            o = rand_order(rng, i, ts, zero_ok)
+            if vary_px:
+                # the order's own price field is not checked by add_order: it may differ from the level's
+                o["px"] = rng.choice([PRICE - 2, PRICE - 1, PRICE, PRICE + 1, PRICE + 2])
+            calls.append(Add(o))
         elif x < 58:
             calls.append(Match(rng.choice([1, 1, 2, 3, 4, 6, 9, 15, 300])))
         elif x < 66:
